@@ -5,9 +5,11 @@ Every case is a complete training (or collection) history on a scripted,
 recording environment: (routine, episode script, config).  Oracles:
 
 (a) stored = produced.  What the routine keeps for learning -- the k-th
-    ``add_sample`` seen by a BufferProxy, EpisodeDataset episodes, A2C rollout
-    rows, PPO env-major arrays, the arguments of the tabular update functions
-    -- must equal the transition implied by the environment log: the
+    ``add_sample`` seen by a BufferProxy, EpisodeDataset episodes and the
+    per-sample arrays built from them (prepare_policy_gradient_dataset; the
+    arguments train_reinforce / train_ac hand to their update callables), A2C
+    rollout rows, PPO env-major arrays, the arguments of the tabular update
+    functions -- must equal the transition implied by the environment log: the
     observation returned by the most recent reset/step before the k-th step,
     the action passed to that step and the reward / successor / flags it
     returned.  The first transition after a reset must carry the reset
@@ -54,15 +56,22 @@ RULE = (
     "non-trivial when encoder and critic batches were sampled after >= 2 stored episode ends of which >= 1 "
     "was a truncation. Off-policy and tabular histories are non-trivial when the executed history contains >= 2 "
     "episode boundaries that are followed by a further stored transition, of which >= 1 lies after the warm-up; "
-    "episodic collectors when >= 3 episodes were stored; vector collectors when >= 2 sub-environment episode "
+    "episodic collectors (scripts start with a terminated and a truncated episode of together fewer steps than "
+    "the collection size, gamma from {1, 0.9, 0.5}) when >= 3 episodes were stored and a collected dataset holds "
+    ">= 3 episodes (train_after_episode, ~15-20%: >= 3 one-episode datasets); vector collectors when >= 2 sub-environment episode "
     "ends are followed by a further stored row. Distinct = distinct (routine, script, warm-up, capacity / "
     "collection size, start step)."
 )
 ASSUMPTIONS = [
     "ScriptedEnv / ScriptedTabularEnv dynamics ignore the action; observations are unique per (episode, t)",
     "module-level callables (greedy_policy, mpc_action, sample_trajectories, collect_trajectories, update_ppo, "
-    "tabular update functions) are wrapped from the test side to observe their arguments; the wrapped "
-    "original is always called",
+    "train_policy_reinforce, train_policy_actor_critic, train_value_function, tabular update functions) are "
+    "wrapped from the test side to observe their arguments; the wrapped original is always called",
+    "episodic collectors: what is kept for learning = EpisodeDataset.episodes, the arrays of "
+    "EpisodeDataset.prepare_policy_gradient_dataset (called from the test side on every collected dataset) and "
+    "the arrays train_reinforce / train_ac pass to their update callables; returns are compared with the float64 "
+    "discounted reward-to-go of the logged rewards within 8 float32 eps of the episode's absolute reward sum, "
+    "per-step discounts within 1e-5 relative, everything else exactly",
     "probe cases: optax.sgd(0.0) optimizers, exploration noise 0, SAC/Gaussian heads at the lower std clip "
     "exp(-20); probe parameters are verified byte-identical after the run",
     "MR.Q scripts end every episode of <= 2 steps by termination and capacities are >= 12 (subtrajectory "
@@ -308,6 +317,21 @@ def build_mrq_default(name, seed):
     return {"routine": name, "gen_seed": int(seed), "env": {"script": script, **_env_cfg(r, "mrq")}, "cfg": cfg}
 
 
+GAMMAS = (1.0, 0.9, 0.5)
+
+
+def _multi_episode_prefix(r, size):
+    """Two short episodes of together fewer than ``size`` steps, one ended by termination and one by
+    truncation (random order; sometimes terminated and truncated together): a collection of >= ``size``
+    samples that starts with them holds >= 3 episodes and has both kinds of episode end in its interior."""
+    l1 = int(r.integers(1, min(4, size - 3) + 1))
+    l2 = int(r.integers(1, min(4, size - 1 - l1) + 1))
+    ends = ["term", "trunc"] if r.random() < 0.5 else ["trunc", "term"]
+    if r.random() < 0.2:
+        ends[int(r.integers(0, 2))] = "both"
+    return [[l1, ends[0]], [l2, ends[1]]]
+
+
 def build_episodic(name, seed):
     r = np.random.default_rng([int(seed), sum(map(ord, name))])
     discrete = bool(r.random() < 0.5)
@@ -317,17 +341,24 @@ def build_episodic(name, seed):
         cfg["train_after_episode"] = bool(r.random() < 0.2)
         cfg["n_calls"] = 3 if cfg["train_after_episode"] else int(r.integers(1, 4))
         total = (cfg["total_steps"] + 8) * cfg["n_calls"]
+        size = cfg["total_steps"]
     else:
-        cfg["steps_per_update"] = int(r.integers(4, 13))
+        cfg["steps_per_update"] = int(r.integers(5, 14))
         cfg["total_timesteps"] = int(cfg["steps_per_update"] * r.integers(2, 4) - r.integers(0, 3))
         cfg["train_after_episode"] = bool(r.random() < 0.15)
         if cfg["train_after_episode"]:
             cfg["total_timesteps"] = int(r.integers(7, 13))
         total = cfg["total_timesteps"] + 40
+        size = cfg["steps_per_update"]
+    # discount used for the prepared learning arrays (returns, per-step discounts)
+    cfg["gamma"] = float(GAMMAS[int(r.integers(0, len(GAMMAS)))])
     # a collection of a single sample makes the value loss raise (batch size 1, outside this property):
     # one-episode collections use episodes of >= 2 steps
     lens = (2, 2, 3, 4) if cfg["train_after_episode"] else (1, 1, 2, 2, 3, 4, 5, 7)
     script = _script(r, total + 12, lens=lens)
+    if not cfg["train_after_episode"]:
+        # the first collection holds >= 3 episodes (multi-episode datasets are what the learner is fed)
+        script = _multi_episode_prefix(r, size) + script
     return {"routine": name, "gen_seed": int(seed), "env": {"script": script, **_env_cfg(r, name, discrete)},
             "cfg": cfg, "logger": bool(r.random() < 0.4)}
 
@@ -823,6 +854,73 @@ def _partition(log):
     return eps
 
 
+_EPS32 = float(np.finfo(np.float32).eps)
+
+
+def _check_learning_rows(C, pre, arrays, rows, gamma, what):
+    """Arrays a policy-gradient learner is fed (any of observations / actions / next_observations /
+    rewards / returns / gamma_discount, one row per collected sample) against the transitions ``rows``
+    implied by the environment log for that collection."""
+    n = len(rows)
+    bad = {k: np.shape(v) for k, v in arrays.items() if np.ndim(v) == 0 or np.shape(v)[0] != n}
+    C.expect(not bad, f"{pre}.count",
+             lambda: f"{what}: leading dimension of {bad} differs from the {n} environment steps of the collection")
+    if bad:
+        return
+    # reference reward-to-go and within-episode index (float64), episode ends from the log's flags
+    ret = np.zeros(n)
+    scale = np.zeros(n)
+    acc = sc = 0.0
+    for k in range(n - 1, -1, -1):
+        if rows[k]["terminated"] or rows[k]["truncated"]:
+            acc = sc = 0.0
+        acc = rows[k]["reward"] + gamma * acc
+        sc = abs(rows[k]["reward"]) + sc
+        ret[k], scale[k] = acc, sc
+    for k, t in enumerate(rows):
+        ended = t["terminated"] or t["truncated"]
+        pos = f"{what} row {k} = step {t['t'] - 1} of episode {t['episode']}"
+        if "observations" in arrays:
+            where = "after_reset" if t["after_reset"] else "mid_episode"
+            o = arrays["observations"][k]
+            C.expect(_eq(o, t["observation"]), f"{pre}.observation.{where}",
+                     lambda: f"{pos}: observation {_where(o)}, the environment's current observation was "
+                             f"{_where(t['observation'])} ({where})")
+        if "actions" in arrays:
+            a = arrays["actions"][k]
+            C.expect(_eq(a, t["action"]), f"{pre}.action",
+                     lambda: f"{pos}: action {np.asarray(a).tolist()}, env.step received "
+                             f"{np.asarray(t['action']).tolist()}")
+        if "next_observations" in arrays:
+            if not ended:
+                where = "mid_episode"
+            elif k == n - 1:
+                where = "last_row"
+            else:
+                where = "interior_episode_end"
+            no = arrays["next_observations"][k]
+            C.expect(_eq(no, t["next_observation"]), f"{pre}.next_observation.{where}",
+                     lambda: f"{pos} ({where}, terminated={t['terminated']} truncated={t['truncated']}): successor "
+                             f"{_where(no)}, that step returned {_where(t['next_observation'])}")
+        if "rewards" in arrays:
+            rw = arrays["rewards"][k]
+            C.expect(_eq(rw, np.float32(t["reward"])), f"{pre}.reward",
+                     lambda: f"{pos}: reward {float(rw)!r}, the step returned {t['reward']!r}")
+        if "returns" in arrays:
+            g = float(arrays["returns"][k])
+            C.expect(abs(g - ret[k]) <= 8 * _EPS32 * max(1.0, scale[k]), f"{pre}.returns",
+                     lambda: f"{pos}: return {g!r}, the discounted sum (gamma={gamma}) of the rewards the environment "
+                             f"returned from this step to the end of its episode is {ret[k]!r}")
+        if "gamma_discount" in arrays:
+            d = float(arrays["gamma_discount"][k])
+            ref = gamma ** (t["t"] - 1)
+            C.expect(abs(d - ref) <= 1e-5 * ref, f"{pre}.gamma_discount",
+                     lambda: f"{pos}: discount {d!r}, gamma ** (step index in its episode) = {ref!r} (gamma={gamma})")
+
+
+_PREPARED = ("observations", "actions", "next_observations", "returns", "gamma_discount")
+
+
 def run_episodic(case):
     from vlib.instruments import make_snapshot_logger, state_bytes
 
@@ -859,9 +957,54 @@ def run_episodic(case):
                              f"{_where(t['next_observation'])}")
             C.expect(_eq(rw, t["reward"]), f"{name}.dataset.reward",
                      lambda: f"episode {i} sample {j}: stored reward {rw}, step returned {t['reward']}")
+
+    # ---- what the learner is fed: the arrays prepare_policy_gradient_dataset builds from every collected
+    # dataset, and the arguments train_reinforce / train_ac hand to their update callables
+    tr = history(run.log)
+    gamma = float(cfg.get("gamma", 1.0))
+    spans = [tuple(x) for x in run.extras["dataset_steps"]]
+    if len(spans) != len(run.extras["datasets"]) or any(lo > hi or hi > len(tr) for lo, hi in spans):
+        raise HarnessError(f"{name}: collection spans {spans} do not fit {len(run.extras['datasets'])} datasets / "
+                           f"{len(tr)} logged steps")
+    eps_per_dataset = []
+    n_interior = {"terminated": 0, "truncated": 0}
+    for i, (d, (lo, hi)) in enumerate(zip(run.extras["datasets"], spans)):
+        rows = tr[lo:hi]
+        eps_per_dataset.append(sum(1 for t in rows if t["terminated"] or t["truncated"]))
+        for t in rows[:-1]:
+            for f in n_interior:
+                n_interior[f] += bool(t[f])
+        out = d.prepare_policy_gradient_dataset(env.action_space, gamma)
+        C.expect(len(out) == len(_PREPARED), f"{name}.prepared.arity", f"{len(out)} arrays returned")
+        if len(out) != len(_PREPARED):
+            continue
+        _check_learning_rows(C, f"{name}.prepared", {k: np.array(v) for k, v in zip(_PREPARED, out)}, rows, gamma,
+                             f"prepare_policy_gradient_dataset of collection {i} ({eps_per_dataset[-1]} episodes)")
+    ups = run.extras.get("update_calls", [])
+    if name != "sample_trajectories":
+        by_end = {hi: (i, lo) for i, (lo, hi) in enumerate(spans)}
+        per_fn = {}
+        for u in ups:
+            per_fn[u["fn"]] = per_fn.get(u["fn"], 0) + 1
+            pre = f"{name}.update_args.{u['fn']}"
+            hit = by_end.get(u["n_steps"])
+            C.expect(hit is not None, f"{pre}.not_after_a_collection",
+                     f"called after {u['n_steps']} environment steps; collections ended after {sorted(by_end)}")
+            if hit is None:
+                continue
+            i, lo = hit
+            g = u.get("gamma", gamma)
+            C.expect(g == gamma, f"{pre}.gamma", f"gamma={g!r} passed, the routine was given gamma={gamma!r}")
+            _check_learning_rows(C, pre, {k: u[k] for k in R._PG_UPDATE_ARRAYS if k in u}, tr[lo:u["n_steps"]], gamma,
+                                 f"{u['fn']} after collection {i}")
+        want = {"reinforce": ("train_policy_reinforce", "train_value_function"),
+                "actor_critic": ("train_policy_actor_critic", "train_value_function")}[name]
+        for fn in want:
+            C.expect(per_fn.get(fn, 0) == len(spans), f"{name}.update_args.{fn}.count",
+                     f"{per_fn.get(fn, 0)} calls for {len(spans)} collections")
     n_dec = 0
     if probe:
-        for k, t in enumerate(history(run.log)):
+        for k, t in enumerate(tr):
             where = "after_reset" if t["after_reset"] else "mid_episode"
             if "n_actions" in case["env"]:
                 got, want = [int(np.asarray(t["action"]))], R.obs_dtag(t["observation"], int(case["env"]["n_actions"]))
@@ -872,13 +1015,20 @@ def run_episodic(case):
                              f"observation {_where(t['observation'])} has tag {want}")
             n_dec += 1
     C.flush()
+    multi = any(n >= 3 for n in eps_per_dataset)
     labels = [name, "probe" if probe else "real-networks", "discrete" if "n_actions" in case["env"] else "continuous",
-              "datasets=%d" % min(len(run.extras["datasets"]), 3)]
+              "datasets=%d" % min(len(run.extras["datasets"]), 3), "gamma=%g" % gamma,
+              "dataset-with>=3-episodes" if multi else "datasets-of<3-episodes"]
+    labels += [f"interior-episode-end:{f}" for f, c in n_interior.items() if c]
+    if ups:
+        labels.append("update-arguments-checked")
     if any(len(e) == 1 for e in ref):
         labels.append("has-1-step-episode")
     if case.get("logger"):
         labels.append("logger")
-    return Outcome(labels=labels, nontrivial=len(ref) >= 3,
+    # one-episode collections (train_after_episode) cannot hold several episodes: >= 3 collections instead
+    nt = len(ref) >= 3 and (multi or bool(cfg.get("train_after_episode")))
+    return Outcome(labels=labels, nontrivial=nt,
                    fp=[name, case["env"]["script"], cfg.get("total_steps"), cfg.get("steps_per_update"),
                        cfg.get("total_timesteps"), cfg.get("n_calls")])
 
@@ -1108,6 +1258,8 @@ def _sub(name, builder, run, quick, thorough, cost, shards=2, rule="", simplify=
 
 
 _R_OFF = ">=2 episode boundaries followed by a stored transition, >=1 of them after the warm-up"
+_R_EPI = (">=3 stored episodes and a collected dataset of >=3 episodes (train_after_episode: >=3 one-episode "
+          "datasets)")
 SUBCHECKS = [
     _sub("dqn", build_offpolicy, run_offpolicy, 8, 100, 2.0, rule=_R_OFF),
     _sub("nature_dqn", build_offpolicy, run_offpolicy, 8, 100, 2.0, rule=_R_OFF),
@@ -1123,9 +1275,9 @@ SUBCHECKS = [
          simplify=simplify_mrq_default,
          rule="encoder and critic batches sampled after >=2 stored episode ends, >=1 of them a truncation"),
     _sub("pets", build_offpolicy, run_offpolicy, 6, 100, 6.0, rule=_R_OFF),
-    _sub("sample_trajectories", build_episodic, run_episodic, 10, 150, 1.0, rule=">=3 stored episodes"),
-    _sub("reinforce", build_episodic, run_episodic, 6, 100, 3.0, rule=">=3 stored episodes"),
-    _sub("actor_critic", build_episodic, run_episodic, 6, 100, 3.0, rule=">=3 stored episodes"),
+    _sub("sample_trajectories", build_episodic, run_episodic, 10, 150, 1.0, rule=_R_EPI),
+    _sub("reinforce", build_episodic, run_episodic, 6, 100, 3.0, rule=_R_EPI),
+    _sub("actor_critic", build_episodic, run_episodic, 6, 100, 3.0, rule=_R_EPI),
     _sub("a2c", build_vector, run_vector, 10, 150, 2.0,
          rule=">=2 sub-environment episode ends followed by a further stored row"),
     _sub("ppo", build_vector, run_vector, 10, 150, 2.0,
